@@ -1664,13 +1664,11 @@ class Stream(AbstractStream):
         
         """
         imol = self._imol
-        if hasattr(imol, '_phase'):
-            if isinstance(imol._phase, tmo._phase.LockedPhase):
-                raise RuntimeError('phase is locked; stream cannot be unlinked')
-            else:
-                imol._phase = imol._phase.copy()
-        imol._data_cache = {}
-        imol.data = imol.data.copy()
+        if hasattr(imol, '_phase') and isinstance(imol._phase, tmo._phase.LockedPhase):
+            raise RuntimeError('phase is locked; stream cannot be unlinked')
+        # A proxy shares the indexer itself, a link shares its data, phase and views: 
+        # a copy of the indexer ends all of these at once
+        self._imol = imol.copy()
         if hasattr(self, '_streams'): self._streams.clear()
         self._thermal_condition = self._thermal_condition.copy()
         self.reset_cache()
